@@ -1,110 +1,172 @@
 // Copyright 2013 The Go Authors. All rights reserved.
 // Use of this source code is governed by a BSD-style
 // license that can be found in the LICENSE file.
+//
+// Modified for symgo: every interpreted map is a *hashmap with deterministic (insertion-order) iteration,
+// support for keys that contain symbolic scalars, and an undo log.
 
 package interp
-
-// Custom hashtable atop map.
-// For use when the key's equivalence relation is not consistent with ==.
-
-// The Go specification doesn't address the atomicity of map operations.
-// The FAQ states that an implementation is permitted to crash on
-// concurrent map access.
 
 import (
 	"go/types"
 )
 
-type hashable interface {
-	hash(t types.Type) int
-	eq(t types.Type, x interface{}) bool
-}
-
 type entry struct {
-	key   hashable
-	value value
-	next  *entry
+	key     value
+	value   value
+	deleted bool
+	hasSym  bool
 }
 
-// A hashtable atop the built-in map.  Since each bucket contains
-// exactly one hash value, there's no need to perform hash-equality
-// tests when walking the linked list.  Rehashing is done by the
-// underlying map.
 type hashmap struct {
 	keyType types.Type
-	table   map[int]*entry
-	length  int // number of entries in map
+	table   map[int][]*entry // live concrete-key entries by hash
+	order   []*entry         // insertion order, including tombstones
+	nsym    int              // number of live entries whose key contains symbolic scalars
+	length  int
 }
 
-// makeMap returns an empty initialized map of key type kt,
-// preallocating space for reserve elements.
+// makeMap returns an empty initialized map of key type kt.
 func makeMap(kt types.Type, reserve int64) value {
-	if usesBuiltinMap(kt) {
-		return make(map[value]value, reserve)
-	}
-	return &hashmap{keyType: kt, table: make(map[int]*entry, reserve)}
+	return &hashmap{keyType: kt, table: make(map[int][]*entry)}
 }
 
-// delete removes the association for key k, if any.
-func (m *hashmap) delete(k hashable) {
-	if m != nil {
-		hash := k.hash(m.keyType)
-		head := m.table[hash]
-		if head != nil {
-			if k.eq(m.keyType, head.key) {
-				m.table[hash] = head.next
-				m.length--
-				return
-			}
-			prev := head
-			for e := head.next; e != nil; e = e.next {
-				if k.eq(m.keyType, e.key) {
-					prev.next = e.next
-					m.length--
-					return
-				}
-				prev = e
+// containsSym reports whether v (a map key: scalar, string, struct, array, iface, pointer) holds symbolic parts.
+func containsSym(v value) bool {
+	switch v := v.(type) {
+	case *sym:
+		return true
+	case sstring:
+		return true
+	case structure:
+		for _, f := range v {
+			if containsSym(f) {
+				return true
 			}
 		}
+	case array:
+		for _, f := range v {
+			if containsSym(f) {
+				return true
+			}
+		}
+	case iface:
+		return containsSym(v.v)
 	}
+	return false
 }
 
-// lookup returns the value associated with key k, if present, or
-// value(nil) otherwise.
-func (m *hashmap) lookup(k hashable) value {
-	if m != nil {
-		hash := k.hash(m.keyType)
-		for e := m.table[hash]; e != nil; e = e.next {
-			if k.eq(m.keyType, e.key) {
-				return e.value
+func (m *hashmap) find(k value) *entry {
+	if m == nil {
+		return nil
+	}
+	if containsSym(k) {
+		for _, e := range m.order {
+			if !e.deleted && decideBool(equalsV(m.keyType, k, e.key)) {
+				return e
+			}
+		}
+		return nil
+	}
+	h := hash(m.keyType, m.keyType, k)
+	for _, e := range m.table[h] {
+		if equals(m.keyType, k, e.key) {
+			return e
+		}
+	}
+	if m.nsym > 0 {
+		for _, e := range m.order {
+			if !e.deleted && e.hasSym && decideBool(equalsV(m.keyType, k, e.key)) {
+				return e
 			}
 		}
 	}
 	return nil
 }
 
-// insert updates the map to associate key k with value v.  If there
-// was already an association for an eq() (though not necessarily ==)
-// k, the previous key remains in the map and its associated value is
-// updated.
-func (m *hashmap) insert(k hashable, v value) {
-	hash := k.hash(m.keyType)
-	head := m.table[hash]
-	for e := head; e != nil; e = e.next {
-		if k.eq(m.keyType, e.key) {
-			e.value = v
-			return
+func (m *hashmap) delete(k value) {
+	e := m.find(k)
+	if e == nil {
+		return
+	}
+	logUndo(func() { m.undelete(e) })
+	e.deleted = true
+	m.length--
+	if e.hasSym {
+		m.nsym--
+	} else {
+		h := hash(m.keyType, m.keyType, e.key)
+		b := m.table[h]
+		for i := range b {
+			if b[i] == e {
+				m.table[h] = append(append([]*entry{}, b[:i]...), b[i+1:]...)
+				break
+			}
 		}
 	}
-	m.table[hash] = &entry{
-		key:   k,
-		value: v,
-		next:  head,
-	}
-	m.length++
 }
 
-// len returns the number of key/value associations in the map.
+func (m *hashmap) undelete(e *entry) {
+	e.deleted = false
+	m.length++
+	if e.hasSym {
+		m.nsym++
+	} else {
+		h := hash(m.keyType, m.keyType, e.key)
+		m.table[h] = append(m.table[h], e)
+	}
+}
+
+// lookup returns the value associated with key k, if present, or value(nil) otherwise.
+func (m *hashmap) lookup(k value) value {
+	if e := m.find(k); e != nil {
+		return e.value
+	}
+	return nil
+}
+
+func (m *hashmap) insert(k value, v value) {
+	if e := m.find(k); e != nil {
+		old := e.value
+		logUndo(func() { e.value = old })
+		e.value = v
+		return
+	}
+	e := &entry{key: k, value: v, hasSym: containsSym(k)}
+	m.order = append(m.order, e)
+	m.length++
+	if e.hasSym {
+		m.nsym++
+	} else {
+		h := hash(m.keyType, m.keyType, k)
+		m.table[h] = append(m.table[h], e)
+	}
+	logUndo(func() {
+		// remove e again
+		if !e.deleted {
+			m.length--
+			if e.hasSym {
+				m.nsym--
+			} else {
+				h := hash(m.keyType, m.keyType, e.key)
+				b := m.table[h]
+				for i := range b {
+					if b[i] == e {
+						m.table[h] = append(append([]*entry{}, b[:i]...), b[i+1:]...)
+						break
+					}
+				}
+			}
+		}
+		for i := len(m.order) - 1; i >= 0; i-- {
+			if m.order[i] == e {
+				m.order = append(m.order[:i:i], m.order[i+1:]...)
+				break
+			}
+		}
+	})
+}
+
 func (m *hashmap) len() int {
 	if m != nil {
 		return m.length
@@ -112,10 +174,27 @@ func (m *hashmap) len() int {
 	return 0
 }
 
-// entries returns a rangeable map of entries.
-func (m *hashmap) entries() map[int]*entry {
-	if m != nil {
-		return m.table
+// live returns the live entries in insertion order (a snapshot).
+func (m *hashmap) live() []*entry {
+	if m == nil {
+		return nil
 	}
-	return nil
+	out := make([]*entry, 0, m.length)
+	for _, e := range m.order {
+		if !e.deleted {
+			out = append(out, e)
+		}
+	}
+	return out
+}
+
+// ---- undo log (heap snapshots, see snapshot.go) ----
+
+var undoLog []func()
+var undoActive bool
+
+func logUndo(f func()) {
+	if undoActive {
+		undoLog = append(undoLog, f)
+	}
 }
